@@ -11,14 +11,14 @@ Lemma cmp_eq x y : (x ?= y)%Z = Eq -> x = y. Proof. apply Z.compare_eq. Qed.
 Ltac unfold_py :=
   cbv beta iota delta [bind of_bool as_bool py_truth py_lt py_le py_gt py_ge py_eq py_ne py_order py_eqb
     as_num cmp_num py_isinstance isinstance1 existsb orb andb negb py_str py_int py_len py_in py_not_in
-    desc_to_xml int_range_to_xml int_range_to_xml_b int_any_to_xml str_any_to_xml str_enum_to_xml
-    bool_to_xml enum_tokens_to_xml in_range Z.ltb Z.leb Z.eqb Z.gtb Z.geb
+    desc_to_xml int_range_to_xml int_range_to_xml_b int_any_to_xml int_any_to_xml_b str_any_to_xml str_enum_to_xml
+    bool_to_xml enum_tokens_to_xml charset_upper_to_xml py_all_chars_in py_upper with_str in_range Z.ltb Z.leb Z.eqb Z.gtb Z.geb
     rdesc_from_xml bool_from_xml py_Emu pyerr_eqb mem_str py_dict_get].
 
 Ltac split_cmp :=
   repeat match goal with
   | |- context [Z.compare ?a ?b] =>
-      first [ is_var a | is_var b ];
+      first [ is_var a | is_var b | match a with Z.of_nat _ => idtac end ];
       let E := fresh "E" in destruct (Z.compare a b) eqn:E
   end.
 
@@ -47,7 +47,8 @@ Ltac desc_solve unf :=
   [ unf; unfold_py; split_cmp; finish_cmp
   | destruct b; vm_compute; reflexivity
   | try (vm_compute; reflexivity); unf; unfold_py; try reflexivity; split_fcmp; reflexivity
-  | try (vm_compute; reflexivity); unf; unfold_py; try reflexivity; split_streq; reflexivity
+  | try (vm_compute; reflexivity); unf; unfold_py; try reflexivity; split_cmp; split_streq;
+    repeat match goal with |- context [forallb ?f ?x] => destruct (forallb f x) end; reflexivity
   | vm_compute; reflexivity
   | try (vm_compute; reflexivity); unf; unfold_py; try reflexivity
   | vm_compute; reflexivity ].
